@@ -121,7 +121,7 @@ plan(Plan(
     lean={"HV.C03": ["ATTR_keys", "ATTR_refs", "C03_esc_spec", "C03_decodes", "C03_inert", "C03_amp_only_refs", "C03_esc_append", "C03_esc_space",
                      "C03_attr_segment", "C03_plain_attr", "C03_open_tag", "C03_merge", "C03_merge_raw"]},
     gconds=TABLE_G, oracle="c03", design_ref="§7 C03",
-    own=_own("html_escape", "TagAttrDict", "HTML.__add__", "HTML.__radd__", "loop0"),
+    own=_own("html_escape", "TagAttrDict", "HTML.__add__", "HTML.__radd__", "Tag.get_html_string:loop0"),
 ))
 plan(Plan(
     id="C04", title="Trusted markup is emitted verbatim and escaping happens exactly once",
@@ -193,3 +193,47 @@ PLANS["C03"].contracts = PLANS["C03"].contracts + [q for q in RENDER_FNS if q no
 PLANS["C06"].own = _own("html_escape", "_normalize_text")
 PLANS["C06"].relevance = {"Tag.get_html_string:path": ("within", "valid(self)"), "TagList.get_html_string:loop0": ("within", "valid(c)"),
                           "TagList.get_html_string:path": ("within", "validL(self)")}
+
+
+TAGIFY_FNS = [CORE + "TagList.tagify", CORE + "Tag.tagify", CORE + "TagList.render", CORE + "Tag.render"]
+DEPS_FNS = [CORE + "_resolve_dependencies", CORE + "TagList.get_dependencies", CORE + "Tag.get_dependencies"]
+plan(Plan(
+    id="C09", title="Tagifiable objects render as their expansion, spliced in place",
+    contracts=TAGIFY_FNS + DEPS_FNS + RENDER_FNS + [CORE + "_tagchilds_to_tagnodes"],
+    lean={"HV.C09": ["spliceLoop_all", "tagifyL_flatMap", "tagifyL_append", "C09_splice_in_place", "C09_expand_list", "C09_expand_node", "C09_expand_plain",
+                     "C09_expand_tag", "C09_tagified_after_L", "C09_no_ob_T", "C09_no_ob_L", "C09_render_no_raise", "C09_raises_unexpanded", "C09_render_subst"]},
+    oracle="c09", design_ref="§7 C09",
+    own=_own("TagList.tagify", "Tag.tagify", ".render:", "_tagchilds_to_tagnodes", "raises-RuntimeError", "no-RuntimeError", "raises_fold", ".raises", ".noraise"),
+    assumptions=["A5: obj.tagify() is a pure function of the object returning a TagList whose items are fully tagified, or a single tagified node (Tagifiable protocol docstring)",
+                 "HTMLDocument.render()'s use of tagify is covered by C11's contracts"],
+))
+plan(Plan(
+    id="C10", title="Dependencies are validated, then resolve one per name to the highest version",
+    contracts=DEPS_FNS,
+    lean={"HV.C10": ["C10_resolve_names_nodup", "C10_resolve_order", "C10_resolve_is_max_earliest", "C10_resolve_max", "C10_resolve_subset", "C10_resolve_complete",
+                     "C10_resolve_idem", "C10_collect_acc", "C10_collect_append", "C10_collect_dep", "C10_collect_tag", "C10_collect_other", "C10_dedup_false",
+                     "C10_placement_independent"]},
+    oracle="c10", design_ref="§7 C10", level="proof",
+    bounded=["B:C10:HTMLDependency.__init__ validation (TypeError/KeyError shapes, single item == one-element list): bounded battery in the oracle, not an R-obligation",
+             "B:C10:packaging.Version ordering (1.9 < 1.10 = 1.10.0 ...): exercised by the oracle with real Version objects"],
+    assumptions=["packaging.Version comparison is a strict total order (its image in Int is the `ver` field); Version parsing is external",
+                 "the constructor-validation clause of the statement is covered by the bounded oracle only (labelled B:, never counted as discharged)"],
+))
+
+
+plan(Plan(
+    id="C01", title="Rendered markup parses back to the same element tree",
+    contracts=RENDER_FNS + HTML_FNS[:4],
+    lean={"HV.C01": ["C01_parse_back_gen", "C01_parse_back", "C01_void_form", "C01_close_tag"]},
+    gconds=TABLE_G + ["G:_VOID_TAG_NAMES:sixteen", "G:_NO_ESCAPE_TAG_NAMES:script-style"], oracle="c01", design_ref="§7 C01",
+    own=_own("html_escape", "_normalize_text"),
+    relevance={"Tag.get_html_string:path": ("within", "ordTree(self)"), "TagList.get_html_string:loop0": ("within", "ordTree(c)"),
+               "TagList.get_html_string:path": ("within", "ordTreeL(self)")},
+    claim="the renderer is proved equal to its L1 spec from the real AST; in Lean the spec's output is proved to tokenize (reference tokenizer: data / tag-open / "
+          "tag-name / double-quoted attribute / self-closing / end-tag states) back to the tree's events after decoding, up to whitespace at the ends of text runs",
+    assumptions=["`ordinary element`: name not in the no-escape set, first character not '/', no space / '>' / '/' in the name; attribute names without '='; plain attribute values; "
+                 "children are text (numbers are stored as text, C14) or ordinary elements; eol consists of characters the text table does not escape",
+                 "HTML5 tokenizer states outside the modelled fragment (RCDATA/rawtext for title/textarea, name lower-casing, tag-name characters such as tab or form feed) are residue; "
+                 "the bounded oracle uses Python's html.parser as an independent tokenizer"],
+))
+PLANS["C04"].gconds = PLANS["C04"].gconds + ["G:_NO_ESCAPE_TAG_NAMES:script-style"]
